@@ -1,10 +1,15 @@
 #!/usr/bin/env python3
-"""Prints DESIGN.md section 12 (calibration tables) from calibration/results.jsonl, seeded/*/meta.json, calibration/mutants.py."""
-import json, os, glob, sys
+"""Prints DESIGN.md section 12 (summary) and writes calibration/matrix.md (one row per change) from
+calibration/results.jsonl, seeded/*/meta.json, refactors/*, calibration/mutants.py."""
+import json, os, glob, sys, re
 ROOT = os.path.dirname(os.path.dirname(os.path.abspath(__file__)))
 res = {}
 for l in open(os.path.join(ROOT, "calibration", "results.jsonl")):
-    r = json.loads(l); res[(r["id"], r["check"])] = r      # latest entry wins
+    try:
+        r = json.loads(l)
+    except Exception:
+        continue
+    res[(r["id"], r["check"])] = r      # latest entry wins
 checks = [f"C{i:02d}" for i in range(1, 20)]
 def row_matrix(mid):
     cells = []
@@ -14,37 +19,97 @@ def row_matrix(mid):
     return "".join(cells)
 sys.path.insert(0, os.path.join(ROOT, "calibration"))
 from mutants import M
-print("## 12. Calibration: which checks catch which changes\n")
-print("Every check was run on the unchanged (repaired) tree at many seeds until silent (section 10), then against changes that *compile and pass")
-print("the repository's 69 tests*: (a) pattern mutants written by me (`calibration/mutants.py`), (b) changes written by independent")
-print("sub-agents that were given only property texts and a scratch worktree - three waves; the second wave was also told which")
-print("mutations already existed and asked for different, harder ones, the third was organised by source file and bug category (`seeded/<id>/`: `patch.diff`, `demo.rs` failing with / passing without")
-print("the change, `notes.md`, `meta.json` with what I re-ran to confirm it). `scripts/mutation_run.py` applies each change (to `/repo`'s working")
-print("tree, or with `--sandbox` to a scratch worktree plus a copy of /verif), re-runs the repository tests, runs the check(s) and always undoes")
-print("the change. Nothing of this is ever committed to `/repo`. Results are logged in `calibration/results.jsonl`.\n")
-print("Matrix column = checks C01..C19 in order: `X` detected (exit 1 + VIOLATION), `-` silent, `?` inconclusive, `.` not run. The first")
-print("signature is the one reported by the property's own check (quick tier, seed 1).\n")
-def table(title, rows):
-    own = sum(1 for r in rows if res.get((r[0], r[1]), {}).get("rc") == 1)
-    print(f"### {title} - {own} of {len(rows)} detected by their own property's check\n")
-    print("| id | property | what the change does / what it needs to manifest | C01..C19 | first signature (own check) |")
-    print("|---|---|---|---|---|")
-    for mid, prop, text in rows:
-        r = res.get((mid, prop))
-        sig = ("`" + r["first_signature"][:70] + "`") if r and r["rc"] == 1 else ("NOT DETECTED" if r else "not run")
-        print(f"| {mid} | {prop} | {text} | `{row_matrix(mid)}` | {sig} |")
-    print()
-table("(a) calibration mutants", [(m[0], m[1], "pattern mutant, see calibration/mutants.py") for m in M])
-rows = []
+
+def wave_of(mid):
+    m = re.match(r"W(\d+)", mid)
+    if m:
+        return int(m.group(1))
+    return 2 if "-w2" in mid else 1
+
+metas = []
 for d in sorted(glob.glob(os.path.join(ROOT, "seeded", "*"))):
-    m = json.load(open(os.path.join(d, "meta.json")))
-    rows.append((m["id"], m["property"], m.get("summary", "see notes.md")))
-table("(b) seeded changes from sub-agents, wave 1", [r for r in rows if "-w2" not in r[0] and not r[0].startswith("W")])
-table("(c) seeded changes from sub-agents, wave 2", [r for r in rows if "-w2" in r[0]])
-table("(d) seeded changes from sub-agents, wave 3 (organised by source file; each agent saw all 19 property texts)", [r for r in rows if r[0].startswith("W3")])
-table("(e) seeded changes from sub-agents, wave 4 (organised by theme; agents saw the list of all earlier mutations)", [r for r in rows if r[0].startswith("W4")])
+    p = os.path.join(d, "meta.json")
+    if os.path.exists(p):
+        metas.append(json.load(open(p)))
+
+WAVE_NOTE = {
+    1: "one agent per property, given only that property's text",
+    2: "as wave 1, told which changes already existed and asked for different, harder ones",
+    3: "organised by source file; agents saw all 19 property texts",
+    4: "by theme (caches, fast paths, call orders, training loops, f32); agents saw the list of all earlier changes",
+    5: "single properties with few changes so far, cooperating sites, API call orders, in-domain edge values",
+    6: "user operations, gradient access API, conv internals, f32 only, lifetimes, shape bookkeeping on the way back",
+    7: "drops and re-binding, construction / equality, dense layers and costs, reductions, pass bookkeeping with aliases, optimizer",
+    8: "composite user programs, unusual sizes, tracking flags, matmul internals, hidden caches, value-dependent fast paths",
+    9: "one property per agent (C01, C04-C06, C08, C12, C17+C03, C18+C10)",
+    10: "std traits, N-th call state, user-defined layers, refusals, conv beyond small sizes, reference-count decisions",
+    11: "one source file per agent, sites with few changes so far",
+    12: "tolerance-sized errors, rare call orders, broadcasting corners, ownership in layers, f32, pass scheduling",
+    13: "three-feature interactions, swapped symmetric names, loop boundaries, panics turned silent, iteration state, sizes nobody tries",
+    14: "two properties per agent (C02+C03, C13+C15, C10+C12, C16+C07, C01+C17, C08+C18)",
+    15: "C04+C06, C05, C09, C11+C12, C14+C15, C19",
+    16: "C03+C06, C13+C16, C17+C18, C02+C07, C01+C10, C08+C09",
+    17: "free choice in the least-touched functions, cooperating sites, f32",
+}
+
+def own(m):
+    return res.get((m["id"], m["property"]))
+
+print("## 12. Calibration: which checks catch which changes\n")
+print("Every check was run on the unchanged (repaired) tree at many seeds until silent (section 10), then against changes that *compile and")
+print("pass the repository's 69 tests*: (a) 20 pattern mutants written by me (`calibration/mutants.py`), (b) changes written by independent")
+print("sub-agents that were given only property texts, a theme, the one-line list of earlier changes (so as not to repeat them) and a")
+print("scratch worktree - nothing from /verif. Each change is kept as `seeded/<id>/` (`patch.diff`, `demo.rs` failing with / passing")
+print("without it, `notes.md`, `meta.json` with what I re-ran to confirm it). `scripts/mutation_run.py` applies a change (to `/repo`'s")
+print("working tree, or with `--sandbox` to a scratch worktree plus a copy of /verif), re-runs the repository tests, runs the check(s)")
+print("and always undoes the change; nothing of this is ever committed to `/repo`. Results are logged in `calibration/results.jsonl`;")
+print("`calibration/matrix.md` has one row per change (what it does, which of C01..C19 flag it, the first signature of its own check).\n")
+print("After every wave the changes that escaped their own property's check were analysed and the checks extended (table below the")
+print("summary); the summary shows the state on the final checks (quick tier, seed 1).\n")
+print("| wave | how the agents were briefed | changes | caught by own check | not required (see meta.json) | escaped on arrival |")
+print("|---|---|---|---|---|---|")
+arrival = {}
+try:
+    arrival = json.load(open(os.path.join(ROOT, "calibration", "arrival.json")))
+except Exception:
+    pass
+tot = [0, 0, 0]
+for w in sorted(set(wave_of(m["id"]) for m in metas)):
+    ms = [m for m in metas if wave_of(m["id"]) == w]
+    nr = [m for m in ms if m.get("not_required")]
+    det = [m for m in ms if not m.get("not_required") and (own(m) or {}).get("rc") == 1]
+    req = len(ms) - len(nr)
+    tot[0] += len(ms); tot[1] += len(det); tot[2] += len(nr)
+    print(f"| {w} | {WAVE_NOTE.get(w, '')} | {len(ms)} | {len(det)} of {req} | {len(nr)} | {arrival.get(str(w), '-')} |")
+print(f"| all | | {tot[0]} | {tot[1]} of {tot[0] - tot[2]} | {tot[2]} | |\n")
+cal_det = sum(1 for m in M if (res.get((m[0], m[1])) or {}).get("rc") == 1)
+print(f"Pattern mutants (a): {cal_det} of {len(M)} caught by their own property's check.\n")
+missing = [m["id"] for m in metas if not m.get("not_required") and (own(m) or {}).get("rc") != 1]
+if missing:
+    print("Not caught by their own check on the final run: " + ", ".join(missing) + ".\n")
 print(open(os.path.join(ROOT, "calibration", "strengthened.md")).read())
 print(open(os.path.join(ROOT, "calibration", "refactorings.md")).read())
 print("""Detection power is statistical outside the enumerated sub-spaces: a change that needs, say, a dimension of exactly 17 *and*
 rank 5 will not be hit by the quick tier; the evidence histograms (cells, ranks, depths, path counts, pass kinds) make
-such holes visible, and the thorough tier widens sizes by 10-100x.""")
+such holes visible, and the thorough tier widens sizes by 10-100x. The escape rate on arrival (two to nine of about
+eighteen per wave, to the end) is the honest measure of what a further, unseen change can expect.""")
+
+# ---- calibration/matrix.md
+out = []
+out.append("# One row per change: which checks flag it\n")
+out.append("Matrix column = checks C01..C19 in order: `X` flagged (exit 1 + VIOLATION), `-` silent, `?` inconclusive (watchdog), `.` not run")
+out.append("against this change. Cross-check columns of the earlier waves were produced with the checks as they stood then (conservative);")
+out.append("the own-check column is from the final checks.\n")
+def table(title, rows):
+    out.append(f"## {title}\n")
+    out.append("| id | property | what the change does / what it needs to manifest | C01..C19 | first signature (own check) |")
+    out.append("|---|---|---|---|---|")
+    for mid, prop, text, nr in rows:
+        r = res.get((mid, prop))
+        sig = ("`" + r["first_signature"][:80] + "`") if r and r["rc"] == 1 else ("not required" if nr else ("NOT DETECTED" if r else "not run"))
+        out.append(f"| {mid} | {prop} | {text} | `{row_matrix(mid)}` | {sig} |")
+    out.append("")
+table("Pattern mutants (calibration/mutants.py)", [(m[0], m[1], "pattern mutant", False) for m in M])
+for w in sorted(set(wave_of(m["id"]) for m in metas)):
+    table(f"Wave {w}", [(m["id"], m["property"], m.get("summary", "see notes.md"), bool(m.get("not_required"))) for m in metas if wave_of(m["id"]) == w])
+open(os.path.join(ROOT, "calibration", "matrix.md"), "w").write("\n".join(out) + "\n")
